@@ -486,7 +486,10 @@ func buildUniverse() *universe {
 }
 
 // altsFor enumerates the operations tried at one position, from the types of the live handles.
-func altsFor(m *machine, u *universe) []opRec {
+func altsFor(m *machine, u *universe, reduced bool) []opRec {
+	if reduced {
+		return altsReduced(m, u)
+	}
 	var cs []int
 	for i, o := range m.regs {
 		if !m.private[i] && isContainer(o) {
@@ -498,8 +501,8 @@ func altsFor(m *machine, u *universe) []opRec {
 	for _, c := range cs {
 		for _, s := range sels {
 			out = append(out, opRec{K: "get", A: []int{c, s}})
-			out = append(out, opRec{K: "set", A: []int{c, u.i7, s}})
-			out = append(out, opRec{K: "set", A: []int{c, u.i7, s, u.i0}, Flag: true})
+			out = append(out, opRec{K: "set", A: []int{c, u.i7, s}, Flag: s == u.i0 && isArrLike(m.regs[c])}) // arrays: through OpSetSel*
+			out = append(out, opRec{K: "set", A: []int{c, u.i7, s, u.i0}})
 		}
 		out = append(out,
 			opRec{K: "set", A: []int{c, u.i7, u.i0, u.sa}},
@@ -525,8 +528,43 @@ func altsFor(m *machine, u *universe) []opRec {
 	return out
 }
 
+// altsReduced: the type-directed core of the operation set (used for the length-3 enumeration).
+func altsReduced(m *machine, u *universe) []opRec {
+	var out []opRec
+	for c, o := range m.regs {
+		if m.private[c] {
+			continue
+		}
+		switch {
+		case isArrLike(o):
+			out = append(out,
+				opRec{K: "get", A: []int{c, u.i0}},
+				opRec{K: "set", A: []int{c, u.i7, u.i0}},
+				opRec{K: "append", A: []int{c, u.i7}},
+				opRec{K: "splice", A: []int{c, u.i0, u.i1, u.i7}},
+				opRec{K: "slice", A: []int{c, u.und, u.i1}},
+				opRec{K: "add", A: []int{c, c}},
+				opRec{K: "copy", A: []int{c}},
+				opRec{K: "freeze", A: []int{c}})
+		case isMapLike(o):
+			out = append(out,
+				opRec{K: "get", A: []int{c, u.sa}},
+				opRec{K: "set", A: []int{c, u.i7, u.sa}},
+				opRec{K: "delete", A: []int{c, u.sa}},
+				opRec{K: "copy", A: []int{c}},
+				opRec{K: "freeze", A: []int{c}},
+				opRec{K: "immut", A: []int{c}})
+		default:
+			if _, ok := o.(*tengo.Error); ok {
+				out = append(out, opRec{K: "get", A: []int{c, u.i7}}, opRec{K: "set", A: []int{c, u.i7, u.i7}})
+			}
+		}
+	}
+	return out
+}
+
 // runExhaustive tries every sequence of at most maxLen operations.
-func runExhaustive(maxLen int) int {
+func runExhaustive(maxLen int, reduced bool) int {
 	total := 0
 	var rec func(prefix []opRec)
 	rec = func(prefix []opRec) {
@@ -535,7 +573,7 @@ func runExhaustive(maxLen int) int {
 		for _, p := range prefix {
 			u0.m.exec(p)
 		}
-		alts := altsFor(u0.m, u0)
+		alts := altsFor(u0.m, u0, reduced)
 		nPrefixCmds := len(u0.m.cmdsNonEmpty())
 		var sb strings.Builder
 		sb.WriteString("(c09x (" + strings.Join(u0.m.cmdsNonEmpty(), " ") + ")")
